@@ -58,6 +58,7 @@ type Contract struct {
 }
 
 type ExternContract struct {
+	Pkg      string // package directory whose overlay carries the spec functions ("" = root)
 	Key      string
 	Sig      string
 	Pure     bool
@@ -107,7 +108,18 @@ type Axiom struct {
 	File   string
 }
 
+type GlobalInv struct {
+	Label   string
+	Text    string
+	Pkg     string
+	Checked bool // globalinv: the variables are never assigned outside package initialisation (checked); configinv: assumed
+	FnName  string
+	Fn      *ssa.Function
+	File    string
+}
+
 type ContractSet struct {
+	globalInvs []*GlobalInv
 	typeInvs  [][2]string
 	axioms    []*Axiom
 	mapInvs   [][2]string
@@ -116,6 +128,8 @@ type ContractSet struct {
 	files     map[string]*specFile // by pkgDir
 	extImports []importSpec
 	extDecls   []string
+	extPkgImports map[string][]importSpec
+	extPkgDecls   map[string][]string
 	errs      []string
 }
 
@@ -186,6 +200,7 @@ func (cs *ContractSet) parseFile(path, pkgDir string, extern bool) {
 	var cur *Contract
 	var curExt *ExternContract
 	var curLoop int
+	extPkg := ""
 	var curVars, curVarTypes, curVarLocals []string
 	for _, l := range lines {
 		body, where := l[0], l[1]
@@ -195,6 +210,11 @@ func (cs *ContractSet) parseFile(path, pkgDir string, extern bool) {
 			word, rest = body[:i], strings.TrimSpace(body[i+1:])
 		}
 		switch {
+		case word == "package" && extern:
+			extPkg = rest
+			if extPkg == "saml" {
+				extPkg = ""
+			}
 		case word == "import":
 			f := strings.Fields(rest)
 			var is importSpec
@@ -204,13 +224,17 @@ func (cs *ContractSet) parseFile(path, pkgDir string, extern bool) {
 				p := strings.Trim(f[0], `"`)
 				is = importSpec{guessPkgName(p), p}
 			}
-			if extern {
+			if extern && extPkg != "" {
+				cs.extPkgImports[extPkg] = append(cs.extPkgImports[extPkg], is)
+			} else if extern {
 				cs.extImports = append(cs.extImports, is)
 			} else {
 				sf.imports = append(sf.imports, is)
 			}
 		case word == "go" || word == "ghost":
-			if extern {
+			if extern && extPkg != "" {
+				cs.extPkgDecls[extPkg] = append(cs.extPkgDecls[extPkg], rest)
+			} else if extern {
 				cs.extDecls = append(cs.extDecls, rest)
 			} else {
 				sf.goDecls = append(sf.goDecls, rest)
@@ -237,6 +261,13 @@ func (cs *ContractSet) parseFile(path, pkgDir string, extern bool) {
 			body := strings.TrimSpace(rest[j+1:])
 			body = strings.TrimPrefix(body, ":")
 			cs.axioms = append(cs.axioms, &Axiom{Name: name, Params: splitParams(rest[i+1 : j]), Text: strings.TrimSpace(body), Pkg: pkgDir, File: where})
+		case word == "globalinv" || word == "configinv":
+			lm := labelRe.FindStringSubmatch(rest)
+			if lm == nil {
+				cs.errs = append(cs.errs, where+": "+word+" needs label: expr")
+				continue
+			}
+			cs.globalInvs = append(cs.globalInvs, &GlobalInv{Label: lm[1], Text: lm[2], Pkg: pkgDir, Checked: word == "globalinv", File: where})
 		case word == "typeinv":
 			f := strings.Fields(rest)
 			if len(f) == 2 {
@@ -266,7 +297,7 @@ func (cs *ContractSet) parseFile(path, pkgDir string, extern bool) {
 			curExt = nil
 			curLoop = 0
 		case word == "extern":
-			curExt = &ExternContract{Key: rest, File: where}
+			curExt = &ExternContract{Key: rest, File: where, Pkg: extPkg}
 			cs.externs = append(cs.externs, curExt)
 			cur = nil
 		case word == "sig" && curExt != nil:
@@ -719,7 +750,19 @@ func (cs *ContractSet) buildOverlay() (map[string][]byte, error) {
 		}
 		var body strings.Builder
 		body.WriteString("\nfunc forall(lo, hi int, f func(k int) bool) bool\nfunc exists(lo, hi int, f func(k int) bool) bool\nfunc ns(t time.Time) int64\n")
-		for _, d := range cs.extDecls {
+		if dir == "" {
+			for _, d := range cs.extDecls {
+				body.WriteString(d + "\n")
+			}
+		} else {
+			// ghost vocabulary of the root extern files is shared by name (uninterpreted functions are keyed by name)
+			for _, d := range cs.extDecls {
+				if strings.HasPrefix(strings.TrimSpace(d), "func ") && !strings.Contains(d, "{") {
+					body.WriteString(d + "\n")
+				}
+			}
+		}
+		for _, d := range cs.extPkgDecls[dir] {
 			body.WriteString(d + "\n")
 		}
 		for _, d := range sf.goDecls {
@@ -729,6 +772,14 @@ func (cs *ContractSet) buildOverlay() (map[string][]byte, error) {
 			n++
 			cl.FnName = fmt.Sprintf("spec_%d_%s", n, sanitize(cl.Label))
 			fmt.Fprintf(&body, "func %s(%s) bool { return %s }\n", cl.FnName, strings.Join(params, ", "), rewriteImplies(strings.Replace(cl.Text, "\n", " ", -1)))
+		}
+		for _, gi := range cs.globalInvs {
+			if gi.Pkg != dir {
+				continue
+			}
+			n++
+			gi.FnName = fmt.Sprintf("globalinv_%d_%s", n, sanitize(gi.Label))
+			fmt.Fprintf(&body, "func %s() bool { return %s }\n", gi.FnName, rewriteImplies(gi.Text))
 		}
 		for _, ax := range cs.axioms {
 			if ax.Pkg != dir {
@@ -775,8 +826,8 @@ func (cs *ContractSet) buildOverlay() (map[string][]byte, error) {
 			}
 		}
 		for _, ec := range cs.externs {
-			if dir != "" {
-				break
+			if ec.Pkg != dir {
+				continue
 			}
 			ps, rs, ok := splitSig(ec.Sig)
 			if !ok {
@@ -798,6 +849,7 @@ func (cs *ContractSet) buildOverlay() (map[string][]byte, error) {
 		// imports: those whose alias is used in the body
 		text := body.String()
 		all := append(append(append([]importSpec{{"time", "time"}}, srcImps...), sf.imports...), cs.extImports...)
+		all = append(all, cs.extPkgImports[dir]...)
 		seen := map[string]string{}
 		var impLines []string
 		for _, is := range all {
@@ -882,7 +934,7 @@ func splitParams(s string) []string {
 
 // loadContracts reads all contract files and returns the set plus overlay.
 func loadContracts() (*ContractSet, map[string][]byte, error) {
-	cs := &ContractSet{files: map[string]*specFile{}}
+	cs := &ContractSet{files: map[string]*specFile{}, extPkgImports: map[string][]importSpec{}, extPkgDecls: map[string][]string{}}
 	for _, dir := range pkgDirs {
 		p := filepath.Join(repoDir, dir, "verif_contracts.go")
 		if _, err := os.Stat(p); err == nil {
@@ -918,6 +970,28 @@ func (cs *ContractSet) resolve(e *Engine) {
 	for _, ti := range cs.typeInvs {
 		e.typeInv[ti[0]] = ti[1]
 	}
+	for _, gi := range cs.globalInvs {
+		gi.Fn = find(gi.Pkg, gi.FnName)
+		if gi.Fn == nil {
+			e.stale = append(e.stale, "globalinv "+gi.Label)
+			continue
+		}
+		if gi.Checked {
+			// every package variable the invariant reads must never be stored to outside package initialisers
+			for _, b := range gi.Fn.Blocks {
+				for _, in := range b.Instrs {
+					for _, op := range in.Operands(nil) {
+						if g, ok := (*op).(*ssa.Global); ok {
+							if w := e.assignedOutsideInit(g); w != "" {
+								e.stale = append(e.stale, fmt.Sprintf("globalinv %s: %s is assigned in %s", gi.Label, g.Name(), w))
+							}
+						}
+					}
+				}
+			}
+		}
+		e.globalInvs = append(e.globalInvs, gi)
+	}
 	for _, ax := range cs.axioms {
 		ax.Fn = find(ax.Pkg, ax.FnName)
 		if ax.Fn == nil {
@@ -945,7 +1019,7 @@ func (cs *ContractSet) resolve(e *Engine) {
 	}
 	for _, ec := range cs.externs {
 		// argument types from the signature function in the root package
-		if sf := find("", ec.SigFn); sf != nil {
+		if sf := find(ec.Pkg, ec.SigFn); sf != nil {
 			for _, p := range sf.Params {
 				ec.ArgTypes = append(ec.ArgTypes, p.Type())
 			}
@@ -955,7 +1029,7 @@ func (cs *ContractSet) resolve(e *Engine) {
 			for _, dir := range pkgDirs {
 				cl.FnByPkg[dir] = find(dir, cl.FnName)
 			}
-			cl.Fn = cl.FnByPkg[""]
+			cl.Fn = cl.FnByPkg[ec.Pkg]
 		}
 		e.externs[ec.Key] = ec
 	}
